@@ -191,7 +191,9 @@ def run(chk):
     stats = Counter()
     chk.cov["rule"] = ("kernel metadata specs: corpus, then the systematic family mesh property x reference-element property "
                        "subsets (43 kernels), the CMA family (to/from pairs incl. every pair of space names where one is a substring of "
-                       "the other, both directions, x assembly/apply/matrix-matrix) and the confusable-names family, then seeded random mostly-valid metadata (general-purpose "
+                       "the other, both directions, x assembly/apply/matrix-matrix), the confusable-names family and the evaluator family "
+                       "(evaluator kernels x every update access inc/readinc/write/readwrite of one or two updated fields/vectors/operators, "
+                       "default and explicit gh_evaluator_targets), then seeded random mostly-valid metadata (general-purpose "
                        "kernels with fields/vectors/operators/scalars/stencils/basis x shapes/reference-element/"
                        "mesh properties, CMA assembly/apply/matrix-matrix, inter-grid, domain, boundary-condition "
                        "kernels) plus a malformed stream; non-trivial = PSy layer generated and >= 2 metadata "
@@ -220,6 +222,7 @@ def run(chk):
     cases += [("systematic", md) for md in G.systematic_family()]
     cases += [("systematic-cma", md) for md in G.cma_family()]
     cases += [("systematic-names", md) for md in G.confusable_family()]
+    cases += [("systematic-evaluator", md) for md in G.evaluator_family()]
     cases += [("valid", G.gen_valid(chk.rng)) for _ in range(ncases)]
     cases += [("malformed", G.gen_malformed(chk.rng)) for _ in range(nbad)]
     results = [R.run_real(md) for _, md in cases]
